@@ -398,7 +398,11 @@ func (x *extractor) genTables() string {
 				if len(body) == 1 {
 					if rs, isRet := body[0].(*ast.ReturnStmt); isRet && len(rs.Results) == 1 {
 						if v, okv := x.eval(p, nil, rs.Results[0]); okv {
-							return ratString(v)
+							// frequencies are whole numbers of Hz: emitted as integers
+							iv := constant.ToInt(v)
+							if iv.Kind() == constant.Int {
+								return iv.ExactString()
+							}
 						}
 					}
 				}
@@ -422,10 +426,10 @@ func (x *extractor) genTables() string {
 			for _, e := range out {
 				parts = append(parts, fmt.Sprintf("(%d, %s)", e.k, e.val))
 			}
-			fmt.Fprintf(&b, "def utils_getSignalFrequency%s : Option (List (Nat × Rat) × Rat) := some ([%s], %s)\n", c, strings.Join(parts, ", "), deflt)
+			fmt.Fprintf(&b, "def utils_getSignalFrequency%s : Option (List (Nat × Int) × Int) := some ([%s], %s)\n", c, strings.Join(parts, ", "), deflt)
 		} else {
 			x.problem("utils.getSignalFrequency%s: switch not recognised", c)
-			fmt.Fprintf(&b, "def utils_getSignalFrequency%s : Option (List (Nat × Rat) × Rat) := none\n", c)
+			fmt.Fprintf(&b, "def utils_getSignalFrequency%s : Option (List (Nat × Int) × Int) := none\n", c)
 		}
 	}
 	// GetSignalWavelength dispatch on the constellation name
